@@ -214,7 +214,8 @@ def isGoaway : Out → Bool
 
 /-- the accounting model under a non-reading client: outputs are withheld. -/
 def applyIn (st : St) (i : In) : St × List Out :=
-  if !st.blocked then
+  if !st.blocked || st.srv.closed || st.srv.dead then
+    -- (a closed / dying connection writes nothing, reading client or not)
     let (s', o) := st.srv.step i
     ({ st with srv := s' }, o)
   else
